@@ -121,7 +121,7 @@ def r4(cx, chk, cfg, F):
 def key_is(p, e, KP):
     from .c02 import hit_on_key
     ks = e.get("keysrc")
-    if ks == KP:
+    if ks == KP or ks == ("kv", KP):
         return True
     return hit_on_key(p, (p.events.index(e),), KP) if False else _key_is(p, ks, KP)
 
